@@ -907,4 +907,60 @@ def rule_keys(ctx):
     return C.reuse_rule(ctx, src, "C02-KEYS", "C10-KEYS", "no ad-hoc cached conversions in per-node entries", lambda i: True, 8)
 
 
-RULES = [rule_keys, rule_infer, rule_topo, rule_linear, rule_ssaid, rule_edge, rule_count]
+_PATHISH = ("path", "ssa_path", "edge_path", "linear_path")
+
+
+def rule_emptyok(ctx):
+    """(seed C10_9) The empty sequence is a valid path (the path of a one-tensor tree, of an edge order that joins
+    nothing): 'not given' is `None`, never falsiness.  In every function taking a path parameter, that parameter is not
+    used as a truth value to *choose* between alternatives — `a or b`, `a if a else b`, `if not a: a = ...` — which
+    would treat the empty path as missing."""
+    r = RuleResult("C10-EMPTYOK", "an empty path is a path: presence is tested with `is None`", 3)
+    n_f = 0
+    for f in ctx.p.all_funcs(None):
+        if f.module.path.startswith(("cotengra/experimental", "cotengra/plot", "cotengra/schematic")):
+            continue
+        params = [a.arg for a in f.node.args.posonlyargs + f.node.args.args + f.node.args.kwonlyargs]
+        mine = [p_ for p_ in params if p_ in _PATHISH]
+        if not mine:
+            continue
+        n_f += 1
+        bad = None
+
+        def is_p(e):
+            return isinstance(e, ast.Name) and e.id in mine
+
+        def is_np(e):
+            return isinstance(e, ast.UnaryOp) and isinstance(e.op, ast.Not) and is_p(e.operand)
+        for n in walk_local(f.node):
+            if isinstance(n, ast.BoolOp) and isinstance(n.op, ast.Or) and any(is_p(v) for v in n.values[:-1]):
+                par = f.module.parents.get(n)
+                if not isinstance(par, (ast.If, ast.While, ast.Assert)) or getattr(par, "test", None) is not n:
+                    bad = bad or (n, f"`{C.unparse(n, 50)}` takes the alternative whenever the first is empty")
+            if isinstance(n, ast.IfExp) and (is_p(n.test) or is_np(n.test)):
+                bad = bad or (n, f"`{C.unparse(n, 50)}` chooses by truth value")
+            if isinstance(n, ast.If) and (is_p(n.test) or is_np(n.test)):
+                assigned = {t.id for b in n.body + n.orelse for x in ast.walk(b) if isinstance(x, ast.Assign)
+                            for t in x.targets if isinstance(t, ast.Name)}
+                if assigned & set(_PATHISH):
+                    bad = bad or (n, f"`if {C.unparse(n.test, 40)}:` re-binds {sorted(assigned & set(_PATHISH))} depending on emptiness")
+        k = ctx.key(f, "C10-EMPTYOK")
+        if bad:
+            r.violation(k, C.loc(f, bad[0]), bad[1] + ": an empty path (one-tensor tree, an edge order that joins nothing) is treated as "
+                        "'not given' — the conversion then raises or silently uses the other format's path")
+        else:
+            r.ok(k, f.loc, f"path parameters {mine} are never used as truth values to choose an alternative")
+    C.require(n_f >= 3, "functions taking a path parameter not found")
+    return r
+
+
+def rule_dispatch(ctx):
+    """Shared with C13-DISPATCH (seed C10_8; same construct as C13_6): whether an explicit path is an edge path or a
+    linear path is a property of the value, so it cannot be decided once per container type and memoised."""
+    from .c13 import rule_dispatch as src
+
+    return C.reuse_rule(ctx, src, "C13-DISPATCH", "C10-DISPATCH", "edge paths and linear paths are told apart per call",
+                        lambda i: True, 2)
+
+
+RULES = [rule_emptyok, rule_dispatch, rule_keys, rule_infer, rule_topo, rule_linear, rule_ssaid, rule_edge, rule_count]
